@@ -44,7 +44,9 @@ class _RabbitConsumer(ConsumerT):
             msg = await self.__next_buffered()
             # a message may have expired while it was waiting in the local buffer
             if self.category == MessageCategory.NORMAL and msg[2].is_overdue:
-                await self.broker.nack(msg[0])
+                # the message has left the buffer: its dead-lettering runs to its end even if
+                # the caller is cancelled right now
+                await asyncio.shield(self.broker.nack(msg[0]))
                 continue
             return msg
 
